@@ -139,8 +139,48 @@ def run(ctx):
             if 0 < n < len(full):
                 st["distinct"].add(r["query"])
             st["hist"]["archives_" + ("ordered" if ob else "unordered")] += 1
+    # ---- grouped queries: LIMIT counts the group rows (repaired finding F67) ----
+    gjobs = []
+    for c in cases[: (8 if ctx.tier == "quick" else 80)]:
+        for key in ("ext", "is_dir", "length(name)"):
+            for ob in ("", " order by %s" % key, " order by count(*) desc, %s" % key, " order by %s desc" % key):
+                gjobs.append((c["tail"], key, ob))
+
+    def gone(job):
+        tail, key, ob = job
+        full, r0 = qlib.select(ctx.impl, "%s, count(*), sum(size)" % key, "%s group by %s%s" % (tail, key, ob), cwd=ctx.scratch, ncols=3)
+        outs = []
+        if full is not None:
+            for n in list(range(1, len(full) + 3)) + [0]:
+                rows, r = qlib.select(ctx.impl, "%s, count(*), sum(size)" % key, "%s group by %s%s limit %d" % (tail, key, ob, n), cwd=ctx.scratch, ncols=3)
+                outs.append((n, rows, r))
+        return job, full, r0, outs
+
+    for (tail, key, ob), full, r0, outs in pmap(gone, gjobs):
+        if full is None:
+            ctx.violation("impl-violates-spec", "grouped query failed: %r" % r0["stderr"][:160], input={"query": r0["query"]})
+            continue
+        for n, rows, r in outs:
+            st["evaluations"] += 1
+            case = {"query": r["query"], "unlimited_rows": len(full)}
+            want = len(full) if n == 0 else min(n, len(full))
+            if rows is None or len(rows) != want:
+                ctx.violation("impl-violates-spec", "grouped query: limit %d returned %s rows, the unlimited query returns %d" % (n, None if rows is None else len(rows), len(full)), input=case)
+                break
+            if ob and rows != full[:len(rows)]:          # group keys are distinct: the ordered prefix is determined (ties on count(*) are broken by the key)
+                ctx.violation("impl-violates-spec", "grouped query: the rows under limit %d are not the first rows of the ordered unlimited result" % n, input=case, observed=rows[:6], expected=full[:6])
+                break
+            if not ob and any(x not in full for x in rows):
+                ctx.violation("impl-violates-spec", "grouped query: a row under limit %d is not a row of the unlimited result" % n, input=case, observed=rows[:6])
+                break
+            st["agreed"] += 1
+            if 0 < n < len(full):
+                st["distinct"].add(r["query"])
+            st["hist"]["grouped_" + ("ordered" if ob else "unordered")] += 1
+    from .common import replay_generic_known
+    replay_generic_known(ctx, 'C06')
     ctx.coverage.update(
         evaluations=st["evaluations"], distinct_nontrivial=len(st["distinct"]), traces_validated_against_impl=st["agreed"],
-        rule="harness: random insertion sequences into the real TopN with limits 1-5 vs model.TopN.run; binary: for each generated (tree with ties, query [ordered and unordered, optional WHERE, bfs/dfs]) EVERY N in 1..M+2 and 0: row count = min(N,M), sub-multiset, key sequence = first N keys of the full sort, and literal prefix of the unlimited result (what the theorems predict). non-trivial = the cut falls strictly inside the result",
+        rule="harness: random insertion sequences into the real TopN with limits 1-5 vs model.TopN.run; binary: for each generated (tree with ties, query [ordered and unordered, optional WHERE, bfs/dfs]) EVERY N in 1..M+2 and 0: row count = min(N,M), sub-multiset, key sequence = first N keys of the full sort, and literal prefix of the unlimited result (what the theorems predict). grouped queries (group rows are the rows LIMIT counts) under every N likewise. non-trivial = the cut falls strictly inside the result",
         samples=st["samples"], distribution=dict(st["hist"]), exhaustive_over_N=True)
     return ctx.finish(trusted=["unordered prefix relies on the walker visiting entries in the same order in both runs (same process-independent getdents order)"])
